@@ -125,8 +125,10 @@ struct TmpDir
 	std::string path;
 	explicit TmpDir(const char* stem)
 	{
+		// below the check's own scratch directory when it says so (removed by the check even if this process dies)
+		const char* base = getenv("VERIF_TMP");
 		mkdir("/verif/build/tmp", 0755);
-		std::string t = std::string("/verif/build/tmp/") + stem + "-XXXXXX";
+		std::string t = std::string(base && *base ? base : "/verif/build/tmp") + "/" + stem + "-XXXXXX";
 		std::vector<char> b(t.begin(), t.end());
 		b.push_back(0);
 		if (!mkdtemp(&b[0])) { perror("mkdtemp"); exit(2); }
